@@ -356,6 +356,7 @@ def run_shard(spec):
 TEXT = ("Held on every lookup observed: exhaustive small scope (every index column over a 3-name alphabet up to "
         "length 3 quick / 4 thorough x every single mutation with a warm cache x every lookup form) plus ~5 000 "
         "(quick) / ~220 000 (thorough) random interleavings; every lookup is compared with a linear scan of the raw "
-        "current index column and every unique label must resolve to its own row.")
+        "current index column and every unique label must resolve to its own row."
+        " 40% of the random tables use element-style names with punctuation (single ':', '<', '>', '.', '|', '[', '$', space).")
 NOTE = "Trusted: the linear-scan reference (vlib/tableref.py) and reading the raw current column from table._data."
 TECHNIQUE = "runtime monitoring: reference-model monitor (linear scan of the current index column) after every operation of interleaved lookup/mutation sequences with cache-temperature tracking + exhaustive small scope"
